@@ -1,145 +1,172 @@
-"""C14 - TCP framing buffer (structural clauses: decision table, no mutation on the None paths,
-prefix/offset constant agreement, provenance in take, append-only push)."""
+"""C14 - TCP framing buffer returns exactly the frames that were sent (per-call behaviour, decided semantically).
+
+Decided for every buffer state, by abstract interpretation of TcpBuffer::{pull_data, push_data} (callees in context)
+with content provenance for byte sequences (a copy remembers which window of the original buffer it holds) and one
+symbolic variable per big-endian read of a buffer position:
+ * pull_data returns None exactly when the buffer holds no complete frame (fewer than 2 bytes, or fewer than
+   2 + prefix bytes, prefix = the big-endian u16 at offset 0) and then leaves the buffer untouched;
+ * otherwise it returns Some(v) with v = buffer[2 .. 2 + prefix] (length and content provenance) and the buffer
+   becomes buffer[2 + prefix ..];
+ * push_data makes the buffer old ++ data;
+ * only new / push_data / pull_data (and their helpers) touch TcpBuffer.buf.
+From these per-call facts the sequence-level statement follows by induction over pushes and pulls (prose step):
+the buffer always holds the not yet delivered suffix of the pushed stream.  NOT decided mechanically: that induction."""
 import re
-from mir import Origins, Origin, strip, short_span, const_int
-from dtable import Walker, Unrecognised, pm, events_only, show, mentions, ev_match
+from absint.lin import Lin
+from absint.values import *
+from absint.interp import Interp, FailClosed, Frame, State, ISIZE_MAX
+from absint.models import M, OPTION
+from rules.c01 import INVARIANTS
 from e1 import field_accesses
 
 LEVEL = "other"
 T = "stun_proto::agent::TcpBuffer::"
 T_V = "stun_proto::agent::TcpBuffer::TcpBuffer"
-SELF = ("param", "self")
-BUF = ("call", r"DebugWrapper<T> as std::ops::Deref>::deref\[std::vec::Vec<u8>\]$", [("field", SELF, "buf")])
-LEN = ("call", r"Vec::<u8>::len$", [BUF])
+
+
+def buf_path(prog, body, tix, depth=0):
+    """field path from a value of type `tix` to the Vec<u8> it contains (by type, not by position)"""
+    t = body.ty(tix) if isinstance(tix, int) else tix
+    if t.get("s") == "std::vec::Vec<u8>":
+        return ()
+    if depth > 4 or t.get("k") != "adt":
+        return None
+    a = prog.adts.get(t["path"])
+    if a is None or a["kind"] != "struct":
+        return None
+    args = t.get("args", [])
+    for i, f in enumerate(a["variants"][0]["fields"]):
+        ft = a["_types"][f["ty"]] if "ty" in f else None
+        if ft is None:
+            continue
+        if ft.get("k") == "param" and args:
+            # generic field: instantiate with the (single) type argument
+            sub = buf_path(prog, body, args[ft.get("index", 0)] if ft.get("index", 0) < len(args) else args[0], depth + 1)
+        else:
+            sub = buf_path(prog, body, ft, depth + 1)
+        if sub is not None:
+            return (i,) + sub
+    return None
+
+
+PATH = {}
+
+
+def find_buf(v, depth=0):
+    for i in PATH.get("p", ()):
+        v = v.get(i) if isinstance(v, Struct) else None
+    return v if isinstance(v, Seq) else None
+
+
+def set_buf(v, new, depth=0):
+    path = PATH.get("p")
+    if path is None:
+        return v, False
+
+    def rec(x, pth):
+        if not pth:
+            return new
+        if not isinstance(x, Struct):
+            x = Struct()
+        return x.with_field(pth[0], rec(x.get(pth[0]), pth[1:]))
+    return rec(v, path), True
+
+
+def setup_self(it, st, fr, B):
+    cell = [c for c in st.cells if c.endswith("*a1")]
+    if not cell:
+        raise FailClosed("self region not found")
+    t1 = fr.body.local_ty(1)
+    PATH["p"] = buf_path(it.prog, fr.body, fr.body.ty(t1["to"]) if t1.get("k") == "ref" else t1)
+    cur = st.cells[cell[0]]
+    nv, ok = set_buf(cur, Seq(B, None, None, ("buf", Lin.const(0))))
+    if not ok:
+        raise FailClosed("TcpBuffer.buf not found as a sequence")
+    st.cells[cell[0]] = nv
+    st.cells["ghost:mutations"] = Num(Lin.const(0))
+    return cell[0]
+
+
+def same_window(st, w, base, off):
+    return w is not None and w[0] == base and st.sys.entails_eq(w[1] - off)
 
 
 def run(prog, chk, tier):
-    chk.explanation = (
-        "pull_data as a decision table: len < 2 -> None ; len < 2 + prefix -> None ; else Some(take(2+prefix)[2..]); both None "
-        "paths have no mutation event on the buffer (bytes left intact); prefix = big-endian u16 of buf[..2] and the three uses "
-        "of the constant 2 agree (prefix read, + 2, bytes[2..]); take(offset): returned vector <- first part of split_at(offset), "
-        "new buffer <- second part; push_data only appends (Vec::extend); who-may-write(TcpBuffer.buf) = {new, push_data, take}. "
-        "NOT decided: the sequence-level statement over all frame sequences and chunkings (run-time values).")
-    chk.trusted += ["rustc MIR", "slice::split_at / to_vec / Vec::extend semantics", "byteorder::BigEndian::read_u16"]
-    rule = "pull_data-table"
-    b = prog.bodies[T + "pull_data"]
-    prefix = ("cast", ("call", r"BigEndian as byteorder::ByteOrder>::read_u16$",
-                       [("call", r"Vec<u8> as std::ops::Index<std::ops::RangeTo<usize>>>::index$", [BUF, ("agg", r"RangeTo::RangeTo$", [("const", 2)])])]))
-    dlen = ("field", ("bin", "AddWithOverflow", prefix, ("const", 2)), "0")
-    take = ("call", r"TcpBuffer::take$", [SELF, dlen])
-
-    def mk(l2, ld):
-        def oracle(o, t, body):
-            s = strip(o)
-            if pm(s, ("bin", "Lt", LEN, ("const", 2)), b):
-                return l2
-            if pm(s, ("bin", "Lt", LEN, dlen), b):
-                return ld
-            return None
-        return oracle
-
-    def call_event(name, args, t, og):
-        if re.search(r"TcpBuffer::", name) and not re.search(r"::\{closure#\d+\}$", name):
-            return ("call", name, args)
-        if any(mentions(a, lambda x: x.k == "field" and x.a[1] == "buf") for a in args):
-            for a in t["args"]:
-                if a["k"] in ("move", "copy"):
-                    ty = b.place_ty(a["pl"])
-                    if ty.get("k") == "ref" and ty.get("mut"):
-                        return ("call", name, args)
-        return None
-
-    def write_event(pl, val, s):
-        if mentions(pl, lambda x: x.k == "field" and x.a[1] == "buf"):
-            return ("write", pl, val)
-        return None
-    multi = {i for i in range(len(b.locals)) if len(b.defs().get(i, [])) > 1 and not b.is_arg(i)}
+    chk.explanation = __doc__.split("\n\n", 1)[1]
+    chk.trusted += ["external-callee model table (Vec/slice copies keep the bytes of the window they copy; extend appends)", "rustc MIR",
+                    "the induction from per-call behaviour to frame sequences (prose)"]
+    # ---- pull_data
+    it = Interp(prog, M, INVARIANTS)
+    body = prog.bodies[T + "pull_data"]
+    fr = Frame("E[pull]", body, 0, frozenset())
+    st = State()
+    st.cells[it.cell_of(fr, 1)] = it.top_of(st, body, body.locals[1]["ty"], hint="a1", region_prefix=fr.id + ":a1")
+    B = it.fresh_num(st, 0, ISIZE_MAX, "buflen").e
+    region = setup_self(it, st, fr, B)
+    p = Lin.var("rd16@buf+0")
+    n_none = n_some = 0
+    try:
+        res = it.run_body(fr, st)
+    except FailClosed as e:
+        chk.fail("pull_data", "analysis failed closed", detail=str(e))
+        res = []
+    for s_, ret in res:
+        if not s_.sys.feasible():
+            continue
+        buf = find_buf(s_.cells.get(region))
+        muts = s_.cells.get("ghost:mutations")
+        if isinstance(ret, Enum) and set(ret.v) == {0}:
+            n_none += 1
+            # no complete frame, buffer intact
+            incomplete = s_.sys.entails_ge(Lin.const(1) - B) or (s_.sys.entails_ge(p + 1 - B) and "rd16@buf+0" in (s_.sys.vars() | set()))
+            chk.ob("pull_data", "None is returned only when the buffer holds no complete frame", incomplete,
+                   detail="a None return is possible with a complete frame buffered: %r" % (s_.sys,), how="E2 return state")
+            intact = isinstance(buf, Seq) and s_.sys.entails_eq(buf.len - B) and same_window(s_, buf.content(), "buf", Lin.const(0)) \
+                and isinstance(muts, Num) and s_.sys.entails_eq(muts.e)
+            chk.ob("pull_data", "a None return leaves the buffered bytes intact", intact, detail="buffer after: %r" % (buf,), how="E2 return state")
+        elif isinstance(ret, Enum) and set(ret.v) == {1}:
+            n_some += 1
+            v = ret.v[1].get(0)
+            ok = s_.sys.entails_ge(B - p - 2)
+            chk.ob("pull_data", "Some is returned only when 2 + prefix bytes are buffered", ok, detail=repr(s_.sys), how="E2 return state")
+            ok = isinstance(v, Seq) and s_.sys.entails_eq(v.len - p) and same_window(s_, v.content(), "buf", Lin.const(2))
+            chk.ob("pull_data", "the frame returned is buffer[2 .. 2 + prefix]", ok, detail="returned %r" % (v,), how="E2 return value (length + content provenance)")
+            ok = isinstance(buf, Seq) and s_.sys.entails_eq(buf.len - B + p + 2) and same_window(s_, buf.content(), "buf", p + 2)
+            chk.ob("pull_data", "the buffer becomes buffer[2 + prefix ..]", ok, detail="buffer after: %r" % (buf,), how="E2 final state (length + content provenance)")
+        else:
+            chk.fail("pull_data", "a return state mixes Some and None", detail=repr(ret))
+    chk.floor("pull_data-none-states", n_none, 2)
+    chk.floor("pull_data-some-states", n_some, 1)
+    bad = [o for o in it.obligations.values() if not o.ok]
+    chk.ob("pull_data", "no panic is reachable in pull_data", not bad, detail="; ".join("%s %s" % (o.kind, o.why) for o in bad[:2]), how="E2 obligations (%d)" % len(it.obligations))
+    # ---- push_data
+    it2 = Interp(prog, M, INVARIANTS)
+    b2 = prog.bodies[T + "push_data"]
+    fr2 = Frame("E[push]", b2, 0, frozenset())
+    st2 = State()
+    st2.cells[it2.cell_of(fr2, 1)] = it2.top_of(st2, b2, b2.locals[1]["ty"], hint="a1", region_prefix=fr2.id + ":a1")
+    B2 = it2.fresh_num(st2, 0, ISIZE_MAX, "buflen").e
+    region2 = setup_self(it2, st2, fr2, B2)
+    N = it2.fresh_num(st2, 0, ISIZE_MAX, "datalen").e
+    st2.cells[it2.cell_of(fr2, 2)] = Seq(N, None, None, ("data", Lin.const(0)))
     n = 0
-    for l2, ld, name in ((1, 0, "len<2"), (0, 1, "len>=2,len<2+prefix"), (0, 0, "complete-frame")):
-        w = Walker(prog, b, mk(l2, ld), call_event, track_locals={0}, write_event=write_event)
-        try:
-            beh = w.run()
-        except Unrecognised as e:
-            chk.fail(rule, name + "|unrecognised-guard", short_span(b.term(e.bb)["span"]), str(e)[:300])
-            continue
-        n += 1
-        evs = [e for e in events_only(beh) if e[0] in ("call", "mutcall", "set", "write")]
-        if name != "complete-frame":
-            ok = len(evs) == 1 and ev_match(evs[0], ("set", 0, ("agg", r"Option::None$", [])), b)
-            chk.ob(rule, name + "|None-without-touching-the-buffer", ok, b.loc(), detail=show(evs)[:300], how=show(evs)[:100])
-        else:
-            out = ("call", r"slice::<impl \[u8\]>::to_vec$", [("call", r"Vec<u8> as std::ops::Index<std::ops::RangeFrom<usize>>>::index$",
-                                                             [take, ("agg", r"RangeFrom::RangeFrom$", [("const", 2)])])])
-            ok = len(evs) == 2 and ev_match(evs[0], take, b) and ev_match(evs[1], ("set", 0, ("agg", r"Option::Some$", [out])), b)
-            chk.ob(rule, name + "|Some(take(2+prefix)[2..])", ok, b.loc(), detail=show(evs)[:600], how="take(read_u16(buf[..2]) + 2) then [2..].to_vec()")
-    chk.floor(rule + "-rows", n, 3)
-    # ---- take
-    rule = "take"
-    tb = prog.bodies[T + "take"]
-    off = ("param", "offset")
-    split = ("call", r"slice::<impl \[u8\]>::split_at$", [("call", r"Vec<u8> as std::ops::Deref>::deref$", [BUF]), off])
-    first = ("call", r"slice::<impl \[u8\]>::to_vec$", [("field", split, "0")])
-    second = ("call", r"DebugWrapper::<T>::wrap\[std::vec::Vec<u8>\]$", [("call", r"slice::<impl \[u8\]>::to_vec$", [("field", split, "1")]), ("any",)])
-    for g in (0, 1):
-        def oracle(o, t, body, g=g):
-            if pm(o, ("bin", "Gt", off, LEN), tb):
-                return g
-            return None
-
-        def we(pl, val, s):
-            if mentions(pl, lambda x: x.k == "field" and x.a[1] == "buf"):
-                return ("write", pl, val)
-            return None
-        w = Walker(prog, tb, oracle, lambda *a: None, track_locals={0}, write_event=we, mut_arg_event=False)
-        try:
-            beh = w.run()
-        except Unrecognised as e:
-            chk.fail(rule, "unrecognised-guard", short_span(tb.term(e.bb)["span"]), str(e)[:300])
-            continue
-        evs = [e for e in events_only(beh) if e[0] in ("set", "write")]
-        if g:
-            ok = len(evs) == 1 and ev_match(evs[0], ("set", 0, ("call", r"Vec::<u8>::new$", [])), tb)
-            chk.ob(rule, "offset>len|empty result, buffer untouched", ok, tb.loc(), detail=show(evs)[:300])
-        else:
-            writes = [e for e in evs if e[0] == "write"]
-            sets = [e for e in evs if e[0] == "set"]
-            ok = (writes and all(ev_match(e, ("write", ("field", SELF, "buf"), second), tb) for e in writes)
-                  and len(sets) == 1 and ev_match(sets[0], ("set", 0, first), tb))
-            chk.ob(rule, "offset<=len|result = buf[..offset], buffer := buf[offset..]", bool(ok), tb.loc(), detail=show(evs)[:600],
-                   how="split_at(offset): .0 returned, .1 stored")
-    # ---- push_data: append only
-    pb = prog.bodies[T + "push_data"]
-    og = Origins(prog, pb)
-    calls = [(og.callee_name(t), [og.operand(a) for a in t["args"]]) for bi, t in pb.calls()]
-    muts = [c for c in calls if not c[0].startswith(("tracing", "core::fmt"))]
-    ok = (len(muts) == 2 and re.search(r"DebugWrapper<T> as std::ops::DerefMut>::deref_mut", muts[0][0])
-          and re.search(r"Vec<u8> as std::iter::Extend<&u8>>::extend::<&\[u8\]>$", muts[1][0])
-          and pm(muts[1][1][1], ("param", "data"), pb) and pm(muts[1][1][0], ("call", r"deref_mut", [("field", SELF, "buf")]), pb))
-    writes = [1 for bi, si, s in pb.iter_stmts() if s["k"] == "assign" and s["pl"]["p"] and any(p["k"] == "field" and p["name"] == "buf" for p in s["pl"]["p"])]
-    chk.ob("push_data", "only effect is Vec::extend(buf, data)", bool(ok) and not writes, pb.loc(), detail=repr([c[0] for c in calls]))
-    # ---- who may write buf
-    rule = "who-may-write"
+    try:
+        for s_, ret in it2.run_body(fr2, st2):
+            if not s_.sys.feasible():
+                continue
+            n += 1
+            buf = find_buf(s_.cells.get(region2))
+            w = buf.content() if isinstance(buf, Seq) else None
+            ok = isinstance(buf, Seq) and s_.sys.entails_eq(buf.len - B2 - N) and w is not None and w[0] == "cat" and \
+                same_window(s_, w[1], "buf", Lin.const(0)) and s_.sys.entails_eq(w[2] - B2) and same_window(s_, w[3], "data", Lin.const(0))
+            chk.ob("push_data", "push_data makes the buffer old ++ data", ok, detail="buffer after: %r" % (buf,), how="E2 final state (length + content provenance)")
+    except FailClosed as e:
+        chk.fail("push_data", "analysis failed closed", detail=str(e))
+    chk.floor("push_data-states", n, 1)
+    # ---- who may touch the buffer: by function
     accs = field_accesses(prog, T_V, "buf")
-    n = 0
+    allowed = re.compile(r"TcpBuffer::(new|push_data|pull_data|take\w*|default)$|TcpBuffer as std::(fmt::Debug|default::Default)")
     for a in accs:
-        if a["how"] in ("ref", "copy"):
-            continue
         fn = re.sub(r"::\{closure#\d+\}", "", a["body"])
-        n += 1
-        ok = (fn.endswith("TcpBuffer::take") and a["how"] in ("write", "drop")) or \
-             (fn.endswith("TcpBuffer::push_data") and a["how"] == "refmut")
-        chk.ob(rule, "buf|%s|%s" % (fn.split("agent::")[-1], a["how"]), ok, a["where"])
-    chk.floor("buf-mutation-sites", n, 2)
-    # DebugWrapper deref / deref_mut / wrap are plain projections
-    for key, pat in (("<stun_proto::DebugWrapper<T> as std::ops::Deref>::deref[std::vec::Vec<u8>]", ("field", ("param", 1), "1")),
-                     ("<stun_proto::DebugWrapper<T> as std::ops::DerefMut>::deref_mut[std::vec::Vec<u8>]", ("field", ("param", 1), "1"))):
-        wb = prog.bodies.get(key)
-        if wb is None:
-            chk.fail("wrapper", "body-missing|" + key)
-            continue
-        o = Origins(prog, wb).local(0)
-        chk.ob("wrapper", key.split(">::")[-1].split("[")[0] + " is the projection to the wrapped value", pm(o, pat, wb), wb.loc(), detail=repr(o))
-    wb = prog.bodies.get("stun_proto::DebugWrapper::<T>::wrap[std::vec::Vec<u8>]")
-    if wb is not None:
-        o = Origins(prog, wb).local(0)
-        chk.ob("wrapper", "wrap stores the value unchanged", pm(o, ("agg", r"DebugWrapper::DebugWrapper$", [("any",), ("param", "obj")]), wb), wb.loc(), detail=repr(o))
+        chk.ob("who-may-access", "TcpBuffer.buf|%s" % fn.split("::", 2)[-1], allowed.search(fn) is not None, a["where"], how="field access sites by function")
+    chk.floor("buf-access-sites", len(accs), 3)
